@@ -1,6 +1,6 @@
 use chrono::Datelike;
 
-use crate::{locale::Locale, number_format::to_precision};
+use crate::locale::Locale;
 
 use super::{
     dates::{date_to_serial_number, from_excel_date},
@@ -11,6 +11,65 @@ pub struct Formatted {
     pub color: Option<i32>,
     pub text: String,
     pub error: Option<String>,
+}
+
+/// Rounds `value` to `decimals` decimal places, half away from zero, working on the
+/// decimal expansion of its 15 significant digits (no binary scaling involved):
+/// 2.5 rounds to 3, 1.005 to 1.01 and 0.15346 to 0.2
+fn round_to_decimals(value: f64, decimals: i32) -> f64 {
+    if value == 0.0 || !value.is_finite() {
+        return value;
+    }
+    let s = format!("{:.14e}", value.abs());
+    let Some((mantissa, exponent)) = s.split_once('e') else {
+        return value;
+    };
+    let Ok(mut exponent) = exponent.parse::<i32>() else {
+        return value;
+    };
+    // digits[i] has weight 10^(exponent - i)
+    let mut digits: Vec<u8> = mantissa
+        .bytes()
+        .filter(u8::is_ascii_digit)
+        .map(|b| b - b'0')
+        .collect();
+    // number of digits with weight >= 10^(-decimals)
+    let keep = exponent + decimals + 1;
+    if keep < 0 {
+        return 0.0_f64.copysign(value);
+    }
+    if keep as usize >= digits.len() {
+        // all the significant digits are displayed, there is nothing to round
+        return value;
+    }
+    let round_up = digits[keep as usize] >= 5;
+    digits.truncate(keep as usize);
+    if round_up {
+        let mut i = digits.len();
+        loop {
+            if i == 0 {
+                digits.insert(0, 1);
+                exponent += 1;
+                break;
+            }
+            i -= 1;
+            if digits[i] == 9 {
+                digits[i] = 0;
+            } else {
+                digits[i] += 1;
+                break;
+            }
+        }
+    }
+    if digits.is_empty() {
+        return 0.0_f64.copysign(value);
+    }
+    let text: String = digits.iter().map(|d| (b'0' + d) as char).collect();
+    let scale = exponent - (digits.len() as i32 - 1);
+    format!("{text}e{scale}")
+        .parse::<f64>()
+        .map(|v| v.copysign(value))
+        .unwrap_or(value)
 }
 
 /// Returns the vector of chars of the fractional part of a *positive* number:
@@ -434,11 +493,10 @@ pub fn format_number(value_original: f64, format: &str, locale: &Locale) -> Form
             }
             let tokens = &p.tokens;
             value = value * 100.0_f64.powi(p.percent) / (1000.0_f64.powi(p.comma));
-            // p.precision is the number of significant digits _after_ the decimal point
-            value = to_precision(
-                value,
-                (p.precision as usize) + format!("{}", value.abs().floor()).len(),
-            );
+            // p.precision is the number of digits _after_ the decimal point
+            if !p.is_scientific {
+                value = round_to_decimals(value, p.precision);
+            }
             let mut value_abs = value.abs();
             let mut exponent_part: Vec<char> = vec![];
             let mut exponent_is_negative = value_abs < 1.0;
@@ -448,10 +506,17 @@ pub fn format_number(value_original: f64, format: &str, locale: &Locale) -> Form
                     exponent_is_negative = false;
                 } else {
                     // TODO: Implement engineering formatting.
-                    let exponent = value_abs.log10().floor();
-                    exponent_part = format!("{}", exponent.abs()).chars().collect();
+                    let mut exponent = value_abs.log10().floor();
                     value /= 10.0_f64.powf(exponent);
-                    value = to_precision(value, 15);
+                    // the mantissa is rounded to the displayed decimals; 9.996 with two
+                    // decimals becomes 10.00, that is 1.00 with the next exponent
+                    value = round_to_decimals(value, p.precision);
+                    if value.abs() >= 10.0 {
+                        value /= 10.0;
+                        exponent += 1.0;
+                    }
+                    exponent_is_negative = exponent < 0.0;
+                    exponent_part = format!("{}", exponent.abs()).chars().collect();
                     value_abs = value.abs();
                 }
             }
